@@ -25,7 +25,7 @@ def run(run):
             run.stream("c05", 20000, seed_offset=k)
     return run.finish(
         level="proof",
-        rule="corpus first (F41 witness; the STDIN table as the target of every statement kind and as one table of the multi-table forms, at top level and inside blocks; every statement kind against top-level temporary tables and a file table executed inside IF / nested IF-ELSE / WHILE / a user-defined function body / PREPARE-EXECUTE, the table read back after the block ended; F4 witness), then statement sequences of 1-30 statements (state carried, COMMIT and ROLLBACK interleaved, every table read back and compared with the model after a ROLLBACK) over 1-3 tables per sequence, file-backed CSV, temporary (DECLARE VIEW) and - in a third of the sequences - the session's STDIN table, 0-400 rows, @@CPU 1-4: INSERT VALUES / INSERT SELECT, single- and multi-table UPDATE / DELETE (cross join and JOIN ON, one or two targets), REPLACE (VALUES and SELECT source) with 0-44 unmatched rows and keys id / data column / both, VALUES cells that are scalar sub-queries reading a cell of another table, a quarter of the statements wrapped in a nested block / function / prepared statement, ALTER ADD (FIRST/LAST/BEFORE/AFTER, DEFAULT expr) / DROP / RENAME; cells integers, NULL, plain strings; conditions from =,<>,<,<=,>,>=, IS NULL, %, AND/OR/NOT; non-trivial = distinct (statement kind, outcome, storage, size band, cpu, position in sequence, count band) signature",
+        rule="corpus first (F41 witness; the STDIN table as the target of every statement kind and as one table of the multi-table forms, at top level and inside blocks; every statement kind against top-level temporary tables and a file table executed inside IF / nested IF-ELSE / WHILE / a user-defined function body / PREPARE-EXECUTE, the table read back after the block ended; F4 witness), then statement sequences of 1-30 statements (state carried, COMMIT and ROLLBACK interleaved, every table read back and compared with the model after a ROLLBACK) over 1-3 tables per sequence, file-backed CSV, temporary (DECLARE VIEW) and - in a third of the sequences - the session's STDIN table, 0-400 rows, @@CPU 1-4: INSERT VALUES / INSERT SELECT, single- and multi-table UPDATE / DELETE (cross join and JOIN ON, one or two targets), REPLACE (VALUES and SELECT source) with 0-44 unmatched rows and keys id / data column / both, VALUES cells that are scalar sub-queries reading a cell of another table, a quarter of the statements wrapped in a nested block / function / prepared statement, ALTER ADD (FIRST/LAST/BEFORE/AFTER, DEFAULT expr) / DROP / RENAME, ALTER TABLE SET LINE_BREAK / ENCLOSE_ALL / PRETTY_PRINT / JSON_ESCAPE (records untouched, table marked); cells integers, NULL, plain strings; conditions from =,<>,<,<=,>,>=, IS NULL, %, AND/OR/NOT; non-trivial = distinct (statement kind, outcome, storage, size band, cpu, position in sequence, count band) signature",
         trusted_base=BASE_TRUST + ["C06 comparison/arithmetic model and C07 SortVal.equiv used by the driver's expression evaluator"],
         checker_cmd="cd /verif/lean && lake build Csvq.Props.C05 && lake env lean <#print axioms for every theorem>",
     )
